@@ -27,12 +27,22 @@ RULE = ("one case = one history of saves (categories Op/OpX/Op_Y/O/Op_ or, every
         "alphabet ab1[]!-*?x; histories with saves that FAIL "
         "part-way on S3 (the bucket refuses the first or the second put of a save, alone or with everything after it: of a new recording, of a stored one, of "
         "one that is saved successfully on a retry; such a save stores nothing on the other cassettes) x key prefixes x "
-        "lookups + a random stream of such histories; non-trivial = the lookup "
+        "lookups + a random stream of such histories; lookups with a time window (start = now - 1h as the default "
+        "lookup is used, start + end at / just before now, end only, two day folders; plus every third windowed lookup of the "
+        "streams above) in a process whose time zone is NOT UTC (TZ + time.tzset() per case: America/New_York, "
+        "Pacific/Pago_Pago west, Asia/Kolkata, Pacific/Kiritimati east of UTC) - same expected answer as on a UTC host; "
+        "categories that are glob patterns when read as one (Handler[Order], Repo[int], a[b]c, x*y, q?, [, a[!b], [a-c]x, "
+        "*, []], Op[_]Y) next to the categories those patterns would select, on all three cassettes x plain / filtered / "
+        "limited / default / windowed lookup x key prefixes + a random stream of histories over them; non-trivial = the lookup "
         "selects a non-empty proper subset of the stored recordings; distinct = distinct (history, lookup)")
 EXHAUSTIVE = {"quick": False, "thorough": False}
 ASSUMPTIONS = [
     "categories contain no '/' (and, for the file cassette, no '.'); uuid texts contain no '/', '_' or '.' (hex)",
-    "strftime('%Y%m%d') is injective on days and contains no '/'; process clock in UTC (fake clock)",
+    "strftime('%Y%m%d') is injective on days and contains no '/'; the clock is the fake one and answers UTC for today() and "
+    "utcnow() alike, also in the cases that run with a non-UTC process time zone (those vary what the C library / "
+    "datetime.astimezone / time.mktime make of a naive datetime, not the day folder a save goes to)",
+    "categories are arbitrary texts without '/' (and '.' on the file cassette), including glob / fnmatch metacharacters "
+    "[ ] * ? !: a category is never a pattern",
     "file names are usable on the file system (no NUL, length, case folding) - outside the domain",
     "os.listdir order, random.shuffle and random.choice are arbitrary (oracles); uuid1 texts come from the case",
     "limit is None or >= 1 (limit=0 means 'no limit' on the in-memory/file cassette and 'nothing' on S3: recorded as "
@@ -81,6 +91,17 @@ def layout_decoys(kp):
     """Sibling key prefixes whose keys are NOT under this cassette's metadata root (the ASSUMPTION on foreign keys):
     with a category called 'metadata' the sibling prefix 'metadata' of the empty prefix would be inside the root."""
     return [d for d in DECOYS.get(kp, []) if not s3_root(d).startswith(s3_root(kp))]
+# categories that are glob / fnmatch patterns when somebody pastes them into one (class-like names of generic types,
+# wildcards, a lone or unbalanced bracket, a negated class): a category is a literal text on every cassette - and GPLAIN:
+# the texts those patterns would select instead (the category read as a pattern must neither lose its own recordings nor
+# pick up these)
+GCATS = ["Handler[Order]", "Repo[int]", "a[b]c", "x*y", "q?", "[", "a[!b]", "[a-c]x", "*", "[]]", "Op[_]Y"]
+GPLAIN = ["HandlerO", "Repoi", "abc", "xzy", "qa", "ac", "bx", "Op", "]", "Op_Y"]
+# process time zones (TZ + time.tzset() in the driver) west and east of UTC, with their offsets on the harness's base
+# date: the lookup window is naive UTC whatever the zone of the process is
+TZS = ["America/New_York", "Asia/Kolkata", "Pacific/Pago_Pago", "Pacific/Kiritimati"]
+TZ_OFFSETS = {"America/New_York": -5 * 3600, "Asia/Kolkata": 5 * 3600 + 1800, "Pacific/Pago_Pago": -11 * 3600,
+              "Pacific/Kiritimati": 14 * 3600}
 CLASS_NAMES = {1: "lib.pyvals.OpaqueA", 2: "lib.pyvals.OpaqueB"}
 
 # string filter values are fnmatch patterns (tape_cassette.py _match_metadata_value): besides * and ? they may hold
@@ -318,6 +339,67 @@ def pattern_cases(rng, tier):
     return out
 
 
+def tz_stream():
+    """Deterministic: recordings saved minutes / hours / a day folder before "now", looked up with the windows a caller
+    really uses (utcnow() - 1h as start, an explicit end at or just before now, end only, two day folders) through
+    iter_recording_ids and the default lookup, in processes whose time zone is west / east of UTC; key prefixes in
+    rotation.  The expected answer does not mention the zone."""
+    M = 60 * 10**6
+    T0 = DAY + 12 * H               # noon: the local day is the UTC day in the zones within +-11h
+    u = ["%032x" % (0x7200 + i) for i in range(8)]
+    ta, tb = [["tenant", pv.s("a")]], [["tenant", pv.s("b")]]
+    recs = [("Op", T0 - 14 * H, tb), ("Op", T0 - 8 * H, ta), ("Op", T0 - 3 * H, ta), ("Op", T0 - 50 * M, ta),
+            ("Op", T0 - 30 * M, tb), ("OpX", T0 - 20 * M, ta), ("Op", T0 - 10 * M, ta + [[INC, pv.b(True)]]),
+            ("Op", T0 - 1 * M, ta + [[INC, pv.b(False)]])]
+    h = [dict(cat=c, uuid=u[i], ct=t, t=t, meta=m) for i, (c, t, m) in enumerate(recs)]
+    windows = [(T0 - H, None), (T0 - H, T0), (T0 - 4 * H, T0 - 5 * M), (T0 - 15 * H, T0), (None, T0), (None, T0 - 25 * M),
+               (T0 - H, T0 + H), (T0 - 9 * H, T0 - 2 * H)]
+    out = []
+    for tz in TZS:
+        for k, (st, en) in enumerate(windows):
+            for f, lim, skip in ((None, None, None), (None, None, True), (ta, 2, True)):
+                c = dict(hist=h, kp=KPS[k % len(KPS)], cat="Op", filter=f, limit=lim, random=0, sched=[0], seed=0,
+                         start=st, end=en, now=T0, skip=skip)
+                if tz:
+                    c["tz"] = tz
+                out.append(c)
+    return out
+
+
+def tz_copies(cases, every):
+    """every n-th lookup of the given ones that has a time window, once more in a process whose zone is not UTC"""
+    out, j = [], 0
+    for c in cases:
+        if c.get("kind") == "cat" or (c["start"] is None and c["end"] is None):
+            continue
+        if j % every == 0:
+            out.append(dict(c, tz=TZS[(j // every) % len(TZS)]))
+        j += 1
+    return out
+
+
+def glob_stream():
+    """Deterministic: categories that are glob patterns when read as one, next to the categories those patterns would
+    select; plain / filtered / limited / default / windowed lookup of each on every cassette."""
+    u = ["%032x" % (0x9b00 + i) for i in range(40)]
+    names = GCATS + GPLAIN + GCATS[:5]
+    h = []
+    for i, c in enumerate(names):
+        meta = [["tenant", pv.s("ab"[i % 2])]]
+        if i % 5 == 0:
+            meta.append([INC, pv.b(i % 10 == 0)])
+        h.append(dict(cat=c, uuid=u[i], ct=i * H, t=i * H, meta=meta))
+    end = len(names) * H
+    out = []
+    for n, c in enumerate(GCATS + GPLAIN):
+        for kp in (("", "p/q") if n < 3 else (KPS[n % len(KPS)],)):
+            for f, lim, skip, win in ((None, None, None, False), (ta_filter(), None, True, False), (None, 1, None, False),
+                                      (None, None, False, True)):
+                out.append(dict(hist=h, kp=kp, cat=c, filter=f, limit=lim, random=0, sched=[0], seed=0,
+                                start=0 if win else None, end=end if win else None, now=end, skip=skip))
+    return out
+
+
 FAILED_BASE = 4500     # ordinals of recordings none of whose saves succeeded (harness/impl/lookup_driver.py)
 
 
@@ -414,6 +496,7 @@ def generate(rng, tier):
             if layout:
                 q["decoys"] = layout_decoys(kp)
             cases.append(q)
+    tz_extra = tz_copies(cases, 3 if tier == "quick" else 4)
     for i, exp in CAT_IDS:
         cases.append(dict(kind="cat", id=i, expect=exp))
     prng = random.Random(rng.random())      # own stream: the cases above are those of the earlier rounds
@@ -430,6 +513,23 @@ def generate(rng, tier):
         for _ in range(8 if tier == "quick" else 12):
             q = rand_query(rng_f, hist)
             q.update(hist=hist, kp=kp, failed=failed)
+            cases.append(q)
+    # round 6: the lookups with a time window again in processes that are not on UTC (deterministic probes + copies of
+    # the windowed lookups of the random stream above), and categories that are glob patterns when read as one
+    # (deterministic probes + a random stream with its own generator)
+    cases += tz_stream()
+    cases += tz_extra
+    cases += glob_stream()
+    rng_g = random.Random(rng.getrandbits(64))
+    gpool = GCATS + GPLAIN
+    for k in range(6 if tier == "quick" else 80):
+        hist = rand_hist(rng_g, native=True, pool=gpool)
+        kp = KPS[k % len(KPS)]
+        for j in range(8 if tier == "quick" else 12):
+            q = rand_query(rng_g, hist, pool=gpool)
+            q.update(hist=hist, kp=kp)
+            if j % 4 == 3 and (q["start"] is not None or q["end"] is not None):
+                q["tz"] = TZS[(k + j) % len(TZS)]
             cases.append(q)
     return cases
 
@@ -569,6 +669,18 @@ def direct(case, obs):
         return fails
     if case.get("outside_domain"):
         return fails
+    if case.get("tz"):
+        if obs.get("tz_offset") != TZ_OFFSETS.get(case["tz"]):
+            return [("driver", "the driver did not run this case in time zone %s (utc offset seen: %s s)" %
+                     (case["tz"], obs.get("tz_offset")))]
+        return [(sig, msg + "  [process time zone TZ=%s (utc offset %+d s); the lookup window start=%s end=%s is naive "
+                 "UTC: what is listed must not depend on the zone of the process]" %
+                 (case["tz"], obs["tz_offset"], case["start"], case["end"])) for sig, msg in direct_utc(case, obs)]
+    return direct_utc(case, obs)
+
+
+def direct_utc(case, obs):
+    fails = []
     st = stored(case["hist"])
     pre = "dflt-" if case["skip"] is True else ""
     sets = {}
@@ -638,6 +750,14 @@ def features(case):
          "filter=" + ("none" if not case["filter"] else "+".join(sorted(v["t"] for _, v in case["filter"])))}
     if any(has_class_pattern(v) for _, v in (case["filter"] or [])):
         f.add("filter-pattern-with-character-class")
+    if case.get("tz"):
+        f.add("process-time-zone=%s" % case["tz"])
+        if case["start"] is not None or case["end"] is not None:
+            f.add("window-in-a-non-utc-process:" + ("west" if TZ_OFFSETS[case["tz"]] < 0 else "east"))
+    if any(ch in case["cat"] for ch in "[]*?"):
+        f.add("category-with-glob-metacharacters")
+    if any(ch in e["cat"] for e in case["hist"] for ch in "[]*?"):
+        f.add("history-with-glob-metacharacter-categories")
     if any(e["ct"] != e["t"] or sum(1 for x in case["hist"] if x["uuid"] == e["uuid"]) > 1 for e in case["hist"]):
         f.add("history-with-resave")
     if not all(native(v) for e in case["hist"] for _, v in e["meta"]):
@@ -684,6 +804,8 @@ def shrink_candidates(case):
     if case["filter"]:
         for i in range(len(case["filter"])):
             yield dict(case, filter=case["filter"][:i] + case["filter"][i + 1:])
+    if case.get("tz"):
+        yield {k: v for k, v in case.items() if k != "tz"}
     if case["random"]:
         yield dict(case, random=0)
     if case["start"] is not None or case["end"] is not None:
@@ -709,7 +831,9 @@ MANIFEST = dict(
          'cassettes agree, skip-incomplete) on the implementation; string filters are checked against the documented '
          'fnmatch meaning including character classes, ranges, negations and literal brackets on all three cassettes '
          '(model side: a Gallina transcription of fnmatch.translate, direct predicate: Python fnmatch); histories in which '
-         'saves fail part-way on S3 are included.',
+         'saves fail part-way on S3 are included; lookups with a time window are also run in processes whose time zone is '
+         'west / east of UTC (the window is naive UTC: same answer), and categories containing glob metacharacters '
+         '([...], *, ?) are looked up on all three cassettes (a category is a literal).',
     note='Trusted: Coq kernel + vm_compute; hand-written models of the three iter_recording_ids, iter_keys, '
          'find_matching_recording_ids; the C14 matcher model; strftime/listdir/shuffle/choice/uuid as oracles; '
          'correspondence harness. limit=0 divergence (no limit on memory/file, nothing on S3) is an observation.',
